@@ -1110,3 +1110,158 @@ def k_fade(E, tier):
     if len(seen) != 2:
         rec.add("both fade directions identified (%s)" % sorted(seen), {"verdict": "inconclusive", "per_solver": {}, "time_s": 0})
     return rec
+
+
+def _nm(ex_deref, v):
+    seen = 0
+    while isinstance(v, sym.Ref) and seen < 5:
+        v = v.target if v.kind == "val" else v
+        seen += 1
+        if isinstance(v, sym.Ref) and v.kind != "val":
+            break
+    return getattr(v, "name", None) if not isinstance(v, sym.Scalar) else v.term
+
+
+def k_plus_minus_units(E, tier):
+    """C11: the unit selection of `+` and `-` in Operator::eval: same unit or a unitless operand takes the other's
+    unit; otherwise the right operand is converted with Numeric::as_unitset to the LEFT unit, and when that is
+    impossible no number is produced (=> incompatible-units error)."""
+    cssv = E.load_enum("css/value.rs", "Value", "css::value::Value")
+    ops = E.load_enum("value/operator.rs", "Operator")
+    f = E.find(name_re=r"^operator::<impl at .*>::eval$")
+    rec = Rec("Operator::eval (+ and - on two numbers)", f, E)
+    for opname, arith in (("Plus", "Add"), ("Minus", "Sub")):
+        ctx = E.ctx()
+
+        def num(name):
+            n = sym.Opaque("value::numeric::Numeric", name, ctx)
+            return sym.Agg("css::value::Value", "Numeric", {"0": n, "1": ctx.fresh_scalar("bool", name + ".calc")}, cssv.index("Numeric")), n
+
+        a, an = num("a")
+        b_, bn = num("b")
+        op = sym.Agg("Operator", opname, {}, ops.index(opname))
+        ex = sym.Executor(ctx, models=BASE_MODELS, feasibility=E.feasibility(ctx))
+        paths = [p for p in ex.run(f, [sym.Ref("val", op), a, b_]) if p.status == "return"]
+        rec.paths += len(paths)
+        kinds = set()
+        for i, p in enumerate(paths):
+            evs = [e for e in p.events if e.callee != "drop"]
+            names = [re.sub(r"::<.*", "", e.callee) for e in evs]
+
+            def argn(e, k):
+                if len(e.rargs) <= k:
+                    return None
+                v = e.rargs[k]
+                return v.term if isinstance(v, sym.Scalar) else getattr(v, "name", None)
+
+            ok = False
+            why = ""
+            adds = [e for e in evs if ("as %s>" % arith) in e.callee or e.callee.startswith("<Number as %s" % arith) or e.callee.startswith("<&Number as %s" % arith)]
+            news = [e for e in evs if e.callee.startswith("Numeric::new")]
+            conv = [e for e in evs if e.callee == "Numeric::as_unitset"]
+            eqs = [e for e in evs if e.callee == "<UnitSet as PartialEq>::eq"]
+            nou = [e for e in evs if e.callee == "Numeric::is_no_unit"]
+            ret_some = isinstance(p.ret, sym.Agg) and p.ret.variant == "Ok" and isinstance(p.ret.fields["0"], sym.Agg) and p.ret.fields["0"].variant == "Some"
+            ret_none = isinstance(p.ret, sym.Agg) and p.ret.variant == "Ok" and isinstance(p.ret.fields["0"], sym.Agg) and p.ret.fields["0"].variant == "None"
+            first_eq = len(eqs) == 1 and {argn(eqs[0], 0), argn(eqs[0], 1)} == {"a.1", "b.1"}
+            if not first_eq:
+                why = "units are not compared first: %s" % names
+            elif ret_some and len(adds) == 1 and len(news) == 1 and not conv:
+                # direct sum: unit must be a's, unless a is unitless and b is not (then b's)
+                vals = (argn(adds[0], 0), argn(adds[0], 1))
+                unit = argn(news[0], 1)
+                sum_ok = vals == ("a.0", "b.0") and news[0].args[0] is adds[0].result
+                if len(nou) == 0:
+                    ok = sum_ok and unit == "a.1"
+                    kinds.add("same-unit")
+                elif len(nou) == 1:
+                    ok = sum_ok and unit == "a.1" and argn(nou[0], 0) == "b"
+                    kinds.add("right-unitless")
+                elif len(nou) == 2:
+                    ok = sum_ok and unit == "b.1" and argn(nou[0], 0) == "b" and argn(nou[1], 0) == "a"
+                    kinds.add("left-unitless")
+                why = "sum of %s with unit %s after %d unitless tests" % (vals, unit, len(nou))
+            elif ret_some and len(conv) == 1 and len(adds) == 1 and len(news) == 1 and len(nou) == 2:
+                cv = conv[0]
+                scaled = cv.result.children.get("Some.0") if isinstance(cv.result, sym.Opaque) else None
+                ok = (argn(cv, 0) == "b" and argn(cv, 1) == "a.1" and argn(adds[0], 0) == "a.0"
+                      and scaled is not None and (adds[0].rargs[1] is scaled or argn(adds[0], 1) == getattr(scaled, "name", None))
+                      and argn(news[0], 1) == "a.1" and news[0].args[0] is adds[0].result)
+                kinds.add("converted")
+                why = "a.value %s as_unitset(b, a.unit) in a's unit" % arith
+            elif ret_none and len(conv) == 1 and not adds and not news:
+                ok = argn(conv[0], 0) == "b" and argn(conv[0], 1) == "a.1"
+                kinds.add("incompatible")
+                why = "no number when as_unitset gives None"
+            else:
+                why = "unexpected shape: %s" % names
+            rec.add("%s path %d: %s" % (opname, i, why),
+                    {"verdict": "holds" if ok else "violated", "per_solver": {"structural": "event identity"}, "time_s": 0})
+        want = {"same-unit", "right-unitless", "left-unitless", "converted", "incompatible"}
+        if kinds != want:
+            rec.add("%s: all five cases are present (%s)" % (opname, sorted(kinds)),
+                    {"verdict": "violated" if paths else "inconclusive", "per_solver": {"structural": "path kinds"}, "time_s": 0})
+    return rec
+
+
+def k_numeric_cmp(E, tier):
+    """C11/C12: Numeric::partial_cmp compares magnitudes directly for equal units or a unitless operand, gives
+    None when UnitSet::scale_to gives None, and otherwise converts in the direction of the factor >= 1 whichever
+    side that operand is on (so the comparison is antisymmetric by construction)."""
+    f = E.find(name_re=r"^numeric::<impl at .*>::partial_cmp$")
+    rec = Rec("Numeric::partial_cmp", f, E)
+    ctx = E.ctx()
+    a = sym.Opaque("value::numeric::Numeric", "a", ctx)
+    b_ = sym.Opaque("value::numeric::Numeric", "b", ctx)
+    ex = sym.Executor(ctx, models=BASE_MODELS, feasibility=E.feasibility(ctx))
+    paths = [p for p in ex.run(f, [sym.Ref("val", a), sym.Ref("val", b_)]) if p.status == "return"]
+    rec.paths = len(paths)
+    kinds = set()
+
+    def an(e, k):
+        v = e.rargs[k] if len(e.rargs) > k else None
+        return v.term if isinstance(v, sym.Scalar) else getattr(v, "name", None)
+
+    for i, p in enumerate(paths):
+        evs = [e for e in p.events if e.callee != "drop"]
+        cmps = [e for e in evs if e.callee == "<Number as PartialOrd>::partial_cmp"]
+        scs = [e for e in evs if e.callee == "UnitSet::scale_to"]
+        muls = [e for e in evs if e.callee.endswith("as Mul>::mul")]
+        nou = [e for e in evs if e.callee == "Numeric::is_no_unit"]
+        eqs = [e for e in evs if e.callee == "<UnitSet as PartialEq>::eq"]
+        ok = False
+        why = "unexpected shape %s" % [e.callee[:40] for e in evs]
+        first = len(eqs) == 1 and {an(eqs[0], 0), an(eqs[0], 1)} == {"a.1", "b.1"}
+        if first and not scs and len(cmps) == 1:
+            ok = (an(cmps[0], 0), an(cmps[0], 1)) == ("a.0", "b.0") and p.ret is cmps[0].result
+            kinds.add("direct")
+            why = "equal units or a unitless operand: magnitudes compared directly (%d unitless tests)" % len(nou)
+        elif first and scs and not cmps:
+            ok = isinstance(p.ret, sym.Agg) and len(nou) == 2
+            kinds.add("undefined")
+            why = "no ordering when the units do not convert"
+        elif first and len(scs) == 1 and len(muls) == 1 and len(cmps) == 1 and len(nou) == 2:
+            sc = scs[0]
+            scale = sc.result.children.get("Ok.0") or sc.result.children.get("Some.0")
+            ok = ((an(sc, 0), an(sc, 1)) == ("b.1", "a.1") and an(muls[0], 0) == "b.0" and an(cmps[0], 0) == "a.0"
+                  and cmps[0].rargs[1] is muls[0].result and p.ret is cmps[0].result and scale is not None)
+            if ok:
+                r = E.decide(ctx, p.pc + ["(not (fp.geq %s %s))" % (scale.term, F1)])
+                ok = r["verdict"] == "holds"
+            kinds.add("convert-right")
+            why = "factor(b->a) >= 1: a ? b*factor"
+        elif first and len(scs) == 2 and len(muls) == 1 and len(cmps) == 1 and len(nou) == 2:
+            s1, s2 = scs
+            scale = s1.result.children.get("Ok.0") or s1.result.children.get("Some.0")
+            ok = ((an(s1, 0), an(s1, 1)) == ("b.1", "a.1") and (an(s2, 0), an(s2, 1)) == ("a.1", "b.1")
+                  and an(muls[0], 0) == "a.0" and cmps[0].rargs[0] is muls[0].result and an(cmps[0], 1) == "b.0"
+                  and p.ret is cmps[0].result and scale is not None)
+            if ok:
+                r = E.decide(ctx, p.pc + ["(fp.geq %s %s)" % (scale.term, F1)])
+                ok = r["verdict"] == "holds"
+            kinds.add("convert-left")
+            why = "factor(b->a) < 1: a*factor(a->b) ? b"
+        rec.add("path %d: %s" % (i, why), {"verdict": "holds" if ok else "violated", "per_solver": {"structural": "event identity + branch condition"}, "time_s": 0})
+    if kinds != {"direct", "undefined", "convert-right", "convert-left"}:
+        rec.add("all four cases present (%s)" % sorted(kinds), {"verdict": "violated" if paths else "inconclusive", "per_solver": {}, "time_s": 0})
+    return rec
